@@ -16,7 +16,16 @@ extern "C" {
     fn sigaction(sig: i32, act: *const SigAction, old: *mut SigAction) -> i32;
     fn sigaltstack(ss: *const StackT, old: *mut StackT) -> i32;
     fn write(fd: i32, buf: *const u8, n: usize) -> isize;
-    pub fn _exit(code: i32) -> !;
+    #[link_name = "_exit"]
+    fn raw_exit(code: i32) -> !;
+}
+
+/// Leave the process at once, without running destructors or atexit handlers.
+pub unsafe fn _exit(code: i32) -> ! {
+    if cfg!(miri) {
+        std::process::exit(code)
+    }
+    raw_exit(code)
 }
 
 #[repr(C)]
@@ -245,6 +254,11 @@ extern "C" fn on_signal(sig: i32, info: *const SigInfo, _ctx: *const u8) {
 /// Map the arena and install the fault handlers. `catch_aborts` additionally routes
 /// SIGILL/SIGABRT/SIGFPE through the reporter (left at default for C16 children).
 pub fn init(catch_aborts: bool) {
+    if cfg!(miri) {
+        // under Miri the interpreter itself is the memory-error detector: no arena
+        let _ = catch_aborts;
+        return;
+    }
     unsafe {
         let p = mmap(BASE as *mut u8, PAGES * PAGE, 3, 0x02 | 0x20 | 0x100000, -1, 0);
         if p as usize != BASE {
@@ -280,7 +294,7 @@ pub fn default_abort_signals() {
 pub fn reset(layout_seed: u64, arena_on: bool) {
     unsafe {
         let n = NTOUCHED.load(Relaxed);
-        if n > 0 {
+        if n > 0 && READY.load(Relaxed) {
             mprotect(BASE as *mut u8, PAGES * PAGE, 3);
             for i in 0..n {
                 STATE[TOUCHED[i] as usize] = FREE;
@@ -302,6 +316,9 @@ pub fn reset(layout_seed: u64, arena_on: bool) {
 /// Burn `n` random free pages (interleaved unrelated allocation pattern): later
 /// placements shift. Burnt pages are not counted as library blocks.
 pub fn noise(n: usize) {
+    if !READY.load(Relaxed) {
+        return;
+    }
     unsafe {
         for _ in 0..n {
             let p = (lrand() % PAGES as u64) as usize;
